@@ -135,7 +135,51 @@ pub fn dump(m: &Machine) -> String {
     )
 }
 
+/// Architectural state at a boundary: R0-R2, PC (not yet incremented), FR, SP and the bus without MISR.
+pub fn arch_str(m: &Machine) -> String {
+    let r = m.registers().content();
+    let bus = m.bus();
+    let b = bus.verif_state();
+    let bd = bus.board();
+    let dirs = bd.uio_dir();
+    format!(
+        "r={}{}{}{}{}{} out={}{} micr={} ucr={} us={} t={},{},{},{} bd={}{}{},{}{}{},{},{},{},{}{}{} ram={}",
+        hex2(r[0]), hex2(r[1]), hex2(r[2]), hex2(r[3]), hex2(r[4]), hex2(r[5]),
+        hex2(bus.output_fe()), hex2(bus.output_ff()), hex2(b.micr), hex2(b.ucr), hex2(b.uart_send),
+        b01(b.timer_enabled), b.timer_div[0], b.timer_div[1], b.timer_div[2],
+        hex2(*bd.digital_input1()), hex2(*bd.digital_output1()), hex2(*bd.digital_output2()),
+        hex2(bd.dasr().bits()), hex2(bd.daisr().bits()), hex2(bd.daicr().bits()),
+        bd.analog_outputs()[0].to_bits(), bd.analog_outputs()[1].to_bits(), bd.fan_rpm(),
+        b01(dirs[0]), b01(dirs[1]), b01(dirs[2]),
+        fnv(&bus.memory()[..])
+    )
+}
+
 impl Sess {
+    fn keep_running(&mut self) {
+        if self.m.state() != State::Running {
+            let st = self.m.verif_state();
+            self.m.raw_mut().verif_force(&st, State::Running);
+        }
+    }
+    /// Is the instruction starting at this boundary a defined one (first byte, and second byte of prefixes)?
+    fn next_instruction_defined(&self) -> bool {
+        use emulator_2a_lib::machine::RegisterNumber as RN;
+        let pc = *self.m.registers().get(RN::R3);
+        let op = self.m.bus().read(pc);
+        if (0x4C..=0x4F).contains(&op) || (0xE0..=0xEF).contains(&op) {
+            return false;
+        }
+        if op < 0xF0 {
+            return true;
+        }
+        let mode = (op >> 2) & 3;
+        let reg = op & 3;
+        let second_at = if reg == 3 && mode >= 2 { pc.wrapping_add(2) } else { pc.wrapping_add(1) };
+        // a source operand that writes to the second byte's location cannot occur (sources only read)
+        let b = self.m.bus().read(second_at);
+        (0x10..=0x3F).contains(&b) || b == 0x40 || b == 0x44 || (0x50..=0x6F).contains(&b)
+    }
     pub fn new() -> Self {
         Sess { m: Machine::new(MachineConfig::default()), last_edge: None, last_panicked: false }
     }
@@ -309,6 +353,51 @@ impl Sess {
                     k += 1;
                 }
                 (line.to_string(), if a == b { "equal".into() } else { format!("differ after {} edges", k) })
+            }
+            "toboundary" | "stepinstr" => {
+                // run single edges to the next instruction boundary; halts are lifted (C01 is not about halting)
+                let mut k = 0;
+                if head == "stepinstr" {
+                    while self.m.is_instruction_done() && k < 50 {
+                        self.m.raw_mut().trigger_clock_edge();
+                        self.keep_running();
+                        k += 1;
+                    }
+                }
+                while !self.m.is_instruction_done() && k < 3000 {
+                    self.m.raw_mut().trigger_clock_edge();
+                    self.keep_running();
+                    k += 1;
+                }
+                (line.to_string(), format!("{}", if self.m.is_instruction_done() { "boundary" } else { "hang" }))
+            }
+            "spec.isa" | "spec.int" => {
+                // architectural state after the instruction that starts at this boundary (on a copy)
+                let mut c = Sess { m: self.m.clone(), last_edge: None, last_panicked: false };
+                if !c.m.is_instruction_done() {
+                    return (line.to_string(), "not-at-boundary".into());
+                }
+                if head == "spec.isa" && !self.next_instruction_defined() {
+                    return (line.to_string(), "undefined".into());
+                }
+                if head == "spec.int" {
+                    c.m.trigger_key_interrupt();
+                }
+                let mut k = 0;
+                while c.m.is_instruction_done() && k < 50 {
+                    c.m.raw_mut().trigger_clock_edge();
+                    c.keep_running();
+                    k += 1;
+                }
+                while !c.m.is_instruction_done() && k < 3000 {
+                    c.m.raw_mut().trigger_clock_edge();
+                    c.keep_running();
+                    k += 1;
+                }
+                if !c.m.is_instruction_done() {
+                    return (line.to_string(), "hang".into());
+                }
+                (line.to_string(), arch_str(&c.m))
             }
             "spec.nopanic" => (line.to_string(), if self.last_panicked { "panic".into() } else { "ok".into() }),
             _ => {
